@@ -79,6 +79,12 @@ def runner(rep, tier, seed, replay):
                 cases.append({"line": shape % (a, b, b), "expected": str(a), "toks": (shape % (a, b, b)).split(), "mode": "float"})
             cases.append({"line": "(%d.0) / %d * %d" % (a, b, b), "expected": str(a), "toks": [], "mode": "float"})
             cases.append({"line": "(%d.5 + %d.5) * %d" % (a, b, b), "expected": str((a + b + 1) * b), "toks": [], "mode": "float"})
+    # float mode, powers of a negative base with a whole exponent beyond the 32-bit range: the sign is decided by the parity of
+    # the exponent (IEEE pow; every whole double >= 2^53 is even), the magnitude by the base
+    for ln, want in (("(0 - 1.0) ^ 2147483648", "1"), ("(0 - 1.0) ^ 2147483649", "-1"), ("(0 - 1.0) ^ 4294967296", "1"), ("(0 - 1.0) ^ 4294967297", "-1"),
+                     ("(0 - 1.5) ^ 2147483648", "inf"), ("(0 - 1.5) ^ 2147483649", "-inf"), ("(0 - 0.5) ^ 2147483648", "0"), ("(0 - 2.0) ^ 31", "-2147483648"),
+                     ("(0 - 2.0) ^ 32", "4294967296"), ("(0 - 1.0) ^ 9007199254740992", "1"), ("1.0 * (0 - 1) ^ 2147483650", "1"), ("(0 - 1.0) ^ (0 - 2147483649)", "-1")):
+        cases.append({"line": ln, "expected": want, "toks": ln.split(), "mode": "float"})
     for b in BOUNDARY:
         cases.append({"line": b, "expected": None, "toks": b.split(), "mode": "boundary"})
     strs = []
